@@ -36,7 +36,7 @@ func WriteJSON(w http.ResponseWriter, r *http.Request, v interface{}) error {
 }
 
 func ReadJSON(w http.ResponseWriter, r *http.Request, v interface{}) error {
-	if err := JSONDecode(r.Body, v); err != nil {
+	if err := JSONDecode(http.MaxBytesReader(w, r.Body, maxRequestBodySize), v); err != nil {
 		return err
 	}
 
